@@ -262,7 +262,8 @@ EXTRA = {
            "augmented assignment on non-scalar receiver attributes counts as an in-place write; compaction state and copy() clauses shared with C04/C07.",
 }
 for _k, _v in EXTRA.items():
-    CLAIMS[_k]["text"] += " " + _v
+    CLAIMS[_k]["text"] += " " + _v + (" (T1) In the functions of the property's anchor files no quantified test flipped between `all` and `any` on the same argument and no "
+                                       "parameter that was read is now ignored, relative to the instances confirmed on the reference tree.")
 _NF = (" All rules read the source in a comparison normal form (bnpsa/normalize.py): early exits as if/else with un-negated tests, locals and comprehension variables renamed back to "
        "the reference vocabulary, freshly introduced temporaries inlined and inlined reference temporaries re-introduced - every step a semantics-preserving rewrite, so renaming, "
        "temporaries and guard orientation do not change a verdict.")
